@@ -12,7 +12,7 @@ import (
 // Families of input data.
 var Families = []string{
 	"empty", "one", "zeros", "zeroprefix", "run", "random", "xx", "xgapx",
-	"text", "lowent", "periodic", "altseg", "ramp", "nearrep", "sandwich", "maxrun", "randzeros", "sandwich2", "noisyrep",
+	"text", "lowent", "periodic", "altseg", "ramp", "nearrep", "sandwich", "maxrun", "randzeros", "sandwich2", "noisyrep", "shortruns",
 }
 
 // Special families used by dedicated cases only (they need particular sizes or dictionaries).
@@ -154,6 +154,21 @@ func Data(r *prng.R, family string, n int) []byte {
 		copy(b[n-q:], text(r, q))
 	case "noisyrep":
 		noisyRep(r, b)
+	case "shortruns":
+		// noise interrupted every few dozen bytes by a short run of one byte value or of a
+		// short period (2..40 bytes, shorter than the 273-byte look-ahead): overlapping matches
+		// that end inside the look-ahead, at every position of the encoder's ring buffer once
+		// the input is a few times longer than DictCap+BufSize
+		r.Bytes(b)
+		for i := 0; i < n; {
+			i += r.Range(3, 60)
+			l := r.Range(5, 60)
+			p := r.Pick(1, 1, 1, 2, 3, 7)
+			for j := p; j < l && i+j < n; j++ {
+				b[i+j] = b[i+j-p]
+			}
+			i += l
+		}
 	case "farmarks":
 		// zeros with pairs of identical 24-byte markers whose distance is just above every
 		// power of two and every 3*2^k that fits: a writer with a dictionary of at least n
